@@ -4,7 +4,10 @@ import (
 	"math"
 )
 
-var vpDists = []float64{0, 1.5, -2, 1e21, 1e-7, 5e-324, math.NaN(), math.Inf(1)}
+// (the last four need all 16-17 significant digits in their shortest decimal
+// form; 9007199254740993 is not a float64 and reads as ...992)
+var vpDists = []float64{0, 1.5, -2, 1e21, 1e-7, 5e-324, math.NaN(), math.Inf(1),
+	94.05090880450125, 0.30000000000000004, -123456789.12345679, 9007199254740993}
 
 func vpSameFloat(a, b float64) bool {
 	if a != a {
